@@ -379,6 +379,64 @@ class C18(common.Prop):
             out['exc'], out['exc_name'] = 2, type(e).__name__
         return out
 
+    # ------------------------------------------------------------------ second oracle (model not buildable)
+    def python_oracle(self, case, impl):
+        """mirror of Geom/CoordCheck.prop_fail, used only when the Coq side cannot be built (e.g. the generator
+        failed closed on a changed source): keeps the search for a failing input alive"""
+        if 'skip' in impl:
+            return 0
+        k = case['kind']
+        close = lambda a, b: all(abs(x - y) <= 1e-9 * (1 + abs(x) + abs(y)) for x, y in zip(a, b))
+        if k == 'embed':
+            if impl['exc']:
+                return 1
+            pos = dict((a, p) for a, p in impl['pos'])
+            if any(n not in pos for n in impl['nodes']):
+                return 2
+            own = {n: i for i, n in enumerate(impl['nodes'])}
+            obs = dict((a, i) for a, i in impl['obs'])
+            if any(obs.get(n) != own[n] for n in impl['nodes']):
+                return 3
+            for u, v, h in impl['bonds']:
+                d2 = sum((a - b) ** 2 for a, b in zip(pos[u], pos[v]))
+                lo, hi = (0.7225, 1.69) if h else (0.81, 4.0)
+                if not (lo <= d2 <= hi):
+                    return 4
+            return 0
+        if k == 'round':
+            if impl['exc']:
+                return 6 if impl['conf'] else 8
+            idx = {n: i for i, n in enumerate(impl['nodes'])}
+            ra = {n: (e, q, h) for n, e, q, h in impl['out_atoms']}
+            ok = len(ra) == len(impl['orig_atoms']) and len(impl['out_edges']) == len(impl['orig_edges'])
+            ok = ok and all(ra.get(idx[n]) == (e, q, h) for n, e, q, h in impl['orig_atoms'])
+            re_ = {(frozenset((i, j)), o) for i, j, o in impl['out_edges']}
+            ok = ok and all((frozenset((idx[u], idx[v])), o) in re_ for u, v, o in impl['orig_edges'])
+            if not ok:
+                return 5
+            if impl['conf']:
+                op = dict((a, i) for a, i in impl['out_pos'])
+                if any(op.get(n) != n for n in ra):
+                    return 7
+            return 0
+        if impl['exc']:
+            return 9
+        out, out_t, out_p = (dict((b, p) for b, p in impl[x]) for x in ('out', 'out_t', 'out_p'))
+        if any(b not in out or b not in out_t for b, _ in impl['beads']):
+            return 10
+        t = impl['t']
+        if any(not close(out_t[b], [x + y for x, y in zip(out[b], t)]) for b, _ in impl['beads']):
+            return 11
+        if impl['own'] not in out_p or out_p[impl['own']] != out[impl['own']]:
+            return 12
+        pos = dict((a, p) for a, p in impl['pos'])
+        for b, ws in impl['beads']:
+            sw = sum(w for _, w in ws)
+            avg = [sum(pos[a][i] * w for a, w in ws) / sw for i in range(3)]
+            if not close(out[b], avg):
+                return 13
+        return 0
+
     # ------------------------------------------------------------------ bookkeeping
     def nontrivial(self, case, impl):
         return 'skip' not in impl
@@ -430,6 +488,33 @@ class C18(common.Prop):
             lit.lst([lit.pair(lit.z(b), lit.lst([lit.pair(lit.z(a), fhex(w)) for a, w in ws])) for b, ws in impl['beads']]),
             bl(impl['pos']), v3(impl['t']), lit.nat(impl['exc']), bl(impl['out']), bl(impl['out_t']), lit.z(impl['own']),
             bl(impl['out_p'])))
+
+
+def drop_stale_gen():
+    """The framework removes theories/Gen/GeomGen.v when tools/gen_geom.py fails closed, but compiled files of an
+    earlier run would keep the OLD model alive (make sees nothing to do).  Remove GeomGen.vo and everything of
+    this component that was compiled against it, so that the failure surfaces as a broken obligation."""
+    import glob
+    import os
+    with common.BuildLock():
+        st = common.regenerate()
+        if st.get('GeomGen', {}).get('ok'):
+            return
+        pats = ['theories/Gen/GeomGen.*', 'theories/Geom/*.vo', 'theories/Geom/*.vos', 'theories/Geom/*.vok',
+                'theories/Geom/*.glob', 'theories/Properties/C18.vo*', 'theories/Properties/C19.vo*',
+                'theories/Properties/C18.glob', 'theories/Properties/C19.glob']
+        for pat in pats:
+            for f in glob.glob(os.path.join(common.VERIF, pat)):
+                if not f.endswith('/Num.vo') and not f.endswith('GeomGen.v'):
+                    try:
+                        os.remove(f)
+                    except OSError:
+                        pass
+
+
+def run(prop, ctx):
+    drop_stale_gen()
+    return common.run_prop(prop, ctx)
 
 
 PROP = C18()
